@@ -25,7 +25,6 @@ func ContainsFold(s, substr string) (ok bool) {
 	}
 
 	first, _ := utf8.DecodeRuneInString(substr)
-	firstFolded := unicode.SimpleFold(first)
 
 	for i := 0; i != -1 && len(s) >= len(substr); {
 		if strings.EqualFold(s[:substrLen], substr) {
@@ -33,7 +32,15 @@ func ContainsFold(s, substr string) (ok bool) {
 		}
 
 		i = strings.IndexFunc(s[1:], func(r rune) (eq bool) {
-			return r == first || r == firstFolded
+			for f := first; ; {
+				if r == f {
+					return true
+				}
+
+				if f = unicode.SimpleFold(f); f == first {
+					return false
+				}
+			}
 		})
 
 		s = s[1+i:]
